@@ -1686,6 +1686,11 @@ class Tensor:
         if self._base is not None and not self._base._view_children:
             self._base = None
 
+        if self._base is not None:
+            # mutating a view mutates its base: a gradient that the base holds
+            # from an earlier backward pass is stale from this moment on
+            self._base.null_grad()
+
         graph = _dup.DuplicatingGraph(self if self.base is None else self.base)
 
         # Create copy of base so that mutation has no impact on the
